@@ -184,6 +184,9 @@ DoSetMap(s, mode) == IsLabelled(o[s].kind) /\ o[s].nl >= 2 /\ Step(s, SetMapR(o[
 \* construction from a plain dict (raw keys: repeated labels, zero values, keys that squash together): class(dict)
 NewR(kind, items) == FoldAugAdd(Fresh(kind), items, 1, 1)
 DoNew(s, lit) == ItemsOK(o[s].kind, lit) /\ Step(s, NewR(o[s].kind, lit), <<"new", s, lit>>)
+\* class.create_var(x) (boolean_var / spin_var for PCBO / PCSO): a NEW model holding the single variable x
+VarR(kind, x) == SetItemR(Fresh(kind), <<x>>, 1)
+DoVar(s, x) == TRUE /\ Step(s, VarR(o[s].kind, x), <<"var", s, x>>)
 DoAddCons(s, x, n) == IsConstr(o[s].kind) /\ Step(s, AddConsR(o[s], x, n), <<"addcons", s, x, n>>)
 
 \* binary operators: result into slot d, operands unchanged (a dict operand on the left uses the reflected form)
@@ -207,9 +210,9 @@ DoInfo(s, d) == s # d /\ Step(d, CopyR(o[s]), <<"info", s, d>>)
 \* to_enumerated() / to_qubo(): observation only, the object is unchanged
 DoToEnum(s, red) == IsLabelled(o[s].kind) /\ UNCHANGED o /\ op' = <<"toenum", s, red>>
 
-AllOps == {"setitem", "augadd", "iadd", "isub", "update", "imul", "scalar", "ipow", "clear", "refresh", "copy", "addcons", "toenum", "new", "setmap"}
-ArithOps == {"setitem", "augadd", "iadd", "isub", "imul", "scalar", "ipow", "bin", "binscalar", "neg", "pow", "div", "value", "mulraise", "refresh"}
-AliasOps == {"setitem", "augadd", "iadd", "imul", "scalar", "update", "clear", "refresh", "copy", "ctor", "info", "poke", "addcons", "bin", "setmap"}
+AllOps == {"setitem", "augadd", "iadd", "isub", "update", "imul", "scalar", "ipow", "clear", "refresh", "copy", "addcons", "toenum", "new", "setmap", "var"}
+ArithOps == {"setitem", "augadd", "iadd", "isub", "imul", "scalar", "ipow", "bin", "binscalar", "neg", "pow", "div", "value", "mulraise", "refresh", "var"}
+AliasOps == {"setitem", "augadd", "iadd", "imul", "scalar", "update", "clear", "refresh", "copy", "ctor", "info", "poke", "addcons", "bin", "setmap", "var"}
 BinNames == {"add", "sub", "mul"}
 On(x) == x \in Ops
 Next == \E s \in Slots :
@@ -227,6 +230,7 @@ Next == \E s \in Slots :
           \/ On("copy") /\ \E d \in Slots : DoCopy(s, d)
           \/ On("setmap") /\ \E mode \in {"rev", "rot"} : DoSetMap(s, mode)
           \/ On("new") /\ \E lit \in LitDicts : DoNew(s, lit)
+          \/ On("var") /\ \E x \in Labels : DoVar(s, x)
           \/ On("addcons") /\ \E x \in Labels, n \in 0..5 : DoAddCons(s, x, n)
           \/ On("toenum") /\ \E red \in BOOLEAN : DoToEnum(s, red)
           \/ On("bin") /\ \E name \in BinNames, d \in Slots :
